@@ -288,8 +288,12 @@ func c10Spell(r *mon.Rng, neg bool, D string, P int, B int) string {
 		} else if a == 0 && r.Chance(1, 4) {
 			sb.WriteByte('-')
 		}
-		if r.Chance(1, 8) {
+		switch {
+		case r.Chance(1, 8):
 			sb.WriteString(strings.Repeat("0", r.Range(1, 2)))
+		case r.Chance(1, 24):
+			// an exponent padded beyond the width of any machine integer (still the same number)
+			sb.WriteString(strings.Repeat("0", r.Range(17, 40)))
 		}
 		sb.WriteString(strconv.Itoa(a))
 	}
